@@ -181,7 +181,7 @@ QuoteLemma(s) == PctUnquote(PctQuote(s)) = s
 ------------------------------------------------------------------------------
 (* Selector normalisation: protocols/base.py slashnormalize                                *)
 SlashNorm(s) ==
-    LET a == IF Len(s) > 0 /\ Last1(s) = "/" THEN SubSeq(s, 1, Len(s) - 1) ELSE s
+    LET a == RStripSet(s, {"/"})      \* selector.rstrip("/") since fix 5eb47a4 (one slash only before)
     IN IF Len(a) = 0 \/ Ch(a, 1) # "/" THEN "/" \o a ELSE a
 
 ------------------------------------------------------------------------------
